@@ -359,3 +359,83 @@ func vstubBuffersWriteToAll(v *net.Buffers, w io.Writer) (int64, error) {
 	*v = nil
 	return n, nil
 }
+
+// ---- the flusher with a long backlog and a write that is cut short ----
+//
+// `backlog` one-byte frames are queued, then the coalescing timer fires, then the connection quits
+// (the environment's steps are deferred goroutines: each runs when the flusher waits). The single
+// vectored write may be cut short at any byte. Asserted: nothing is handed to the socket after a
+// write that failed or was short, every request gets exactly one verdict, and a request is told
+// "written" only if its byte was written.
+var (
+	vBkCalls  int
+	vBkCut    int64 // bytes the socket accepts in total before failing (-1: never fails)
+	vBkTaken  int64
+	vBkAfter  bool // a write was attempted after one had failed
+	vBkFailed bool
+)
+
+func vstubBuffersWriteToCut(v *net.Buffers, w io.Writer) (int64, error) {
+	vBkCalls++
+	if vBkFailed {
+		vBkAfter = true
+	}
+	var total int64
+	for _, b := range *v {
+		total += int64(len(b))
+	}
+	*v = nil
+	if vBkCut < 0 || vBkTaken+total <= vBkCut {
+		vBkTaken += total
+		return total, nil
+	}
+	n := vBkCut - vBkTaken
+	vBkTaken = vBkCut
+	vBkFailed = true
+	return n, vErrIO
+}
+
+func vEnvTick(ch chan time.Time)  { ch <- time.Time{} }
+func vEnvQuit(ch chan struct{})   { close(ch) }
+
+func vh_flusher_backlog() {
+	N := vBound("backlog")
+	conn := &vConnStub{}
+	quit := make(chan struct{})
+	w := &writeCoalescer{c: conn, writeCh: make(chan writeRequest, N), quit: quit}
+	timerC := make(chan time.Time, 1)
+	chans := make([]chan writeResult, N)
+	for i := 0; i < N; i++ {
+		chans[i] = make(chan writeResult, 1)
+		w.writeCh <- writeRequest{resultChan: chans[i], data: vSliceOfLen(1)}
+	}
+	vBkCalls, vBkTaken, vBkAfter, vBkFailed = 0, 0, false, false
+	vBkCut = -1
+	if vBool("write_is_cut_short") {
+		vBkCut = int64(vChoose("cut_at", N))
+	}
+	go vEnvTick(timerC)
+	go vEnvQuit(quit)
+	w.writeFlusherImpl(timerC, func() {})
+	vAssert(!vBkAfter, "C07/flusher/nothing-is-written-after-a-failed-write")
+	okAll, written := true, 0
+	for i := 0; i < N; i++ {
+		if len(chans[i]) != 1 {
+			okAll = false
+			continue
+		}
+		r := <-chans[i]
+		if r.err == nil {
+			okAll = okAll && r.n == 1
+			written++
+		} else {
+			okAll = okAll && r.n == 0
+		}
+	}
+	vAssert(okAll, "C07/flusher/every-received-request-gets-exactly-one-result")
+	vAssert(int64(written) <= vBkTaken, "C07/flusher/told-written-only-if-the-frame-is-in-the-stream")
+	if vBkCut < 0 {
+		vAssert(written == N, "C07/flusher/result-is-whole-frame-or-nothing-when-writes-succeed")
+	}
+	vObserve("written", written)
+}
